@@ -241,7 +241,12 @@ class SetMembersMixin:
                     # When reassigning a module to an existing one,
                     # try to merge them as one regular and one stubs module
                     # (implicit support for .pyi modules).
-                    if member.is_module and not (member.is_namespace_package or member.is_namespace_subpackage):
+                    # (An alias is never merged, whatever it points at: it takes the member's place.)
+                    if (
+                        member.is_module
+                        and not value.is_alias
+                        and not (member.is_namespace_package or member.is_namespace_subpackage)
+                    ):
                         # Accessing attributes of the value or member can trigger alias errors.
                         # Accessing file paths can trigger a builtin module error.
                         with suppress(AliasResolutionError, CyclicAliasError, BuiltinModuleError):
